@@ -523,8 +523,15 @@ def py_render(stmts, ind=0, out=None):
             out.append(f"{pad}global {', '.join(s['names'])}")
         elif k == "nonlocal":
             out.append(f"{pad}nonlocal {', '.join(s['names'])}")
-        elif k == "raw":
+        elif k in ("raw", "imp"):
             out.append(pad + s["text"])
+        elif k == "tryf":
+            out.append(f"{pad}try:")
+            py_render(s["body"], ind + 1, out)
+            out.append(f"{pad}except Exception:")
+            py_render(s["handler"], ind + 1, out)
+            out.append(f"{pad}finally:")
+            py_render(s["final"], ind + 1, out)
         else:
             raise ValueError(k)
     return out
@@ -1330,7 +1337,16 @@ def classify_py(wsp, unit, oracle, stmt, line, name, exp, real, in_unit, dscope,
     # statements placed inside a nested block (if/for/while/try/with): lian keeps them block-scoped.
     own = [d for d in exp["decls"] if not d[3]] if exp is not None else []
     if own and all(d[1] in ("func", "class", "import") and d[2] for d in own):
-        return "C05/py-def-in-nested-block-is-block-scoped"
+        # … and the occurrence is OUTSIDE every block that holds one of these statements (inside the
+        # block the declaration is visible to lian as well: a failure there is something else)
+        # (a `global` statement consults the unit root only: block-scoped there wherever it stands)
+        anc = set() if wsp.row_by_id[stmt]["op"] == "global_stmt" else set(ancestors(wsp, stmt))
+        holders = [r["parent"] for r in wsp.units[unit]
+                   if r["start_row"] is not None and OPKIND.get(r["op"]) in ("func", "class", "import")
+                   and any(r["start_row"] + 1 == d[0] and OPKIND[r["op"]] == d[1] for d in own)
+                   and (decl_name(r) == name)]
+        if holders and not any(h in anc for h in holders):
+            return "C05/py-def-in-nested-block-is-block-scoped"
     return None
 
 
@@ -1420,7 +1436,12 @@ def eval_case(wsp, case, idx, ops, stats):
                 continue
             exp = oracle.occ[(line, name)]
             imp = case.get("imports", {}).get(rel, {})
-            via_import = name in imp and (exp is None or any(d[1] == "import" for d in exp["decls"]))
+            tag0 = imp.get(name)
+            star_tag = tag0 is not None and (tag0[0][2] if isinstance(tag0[0], list) else tag0[2]) == "star"
+            # bound by an import statement in the occurrence's scope chain (symtable), or only reachable
+            # through a module-level `import *` (which symtable cannot see)
+            via_import = name in imp and ((exp is None and star_tag) or
+                                          (exp is not None and any(d[1] == "import" for d in exp["decls"])))
             if via_import:
                 ok, real = judge_import(wsp, case, idx, unit, sid, su, imp[name])
                 stats["import_occurrences"] += 1
@@ -1434,7 +1455,8 @@ def eval_case(wsp, case, idx, ops, stats):
             stats["resolved" if exp is not None else "unresolved"] += 1
             if not ok:
                 if via_import:
-                    fid = classify_import(imp[name], real, imp, name, case, rel)
+                    fid = classify_import(imp[name], real, imp, name, case, rel) or \
+                        classify(wsp, unit, case["lang"], oracle, stmt, line, name, exp, real)
                 else:
                     fid = classify(wsp, unit, case["lang"], oracle, stmt, line, name, exp, real)
                 mism.append({"case": case["id"], "file": rel, "line": line, "name": name, "stmt": stmt, "mode": mode,
@@ -1445,7 +1467,11 @@ def eval_case(wsp, case, idx, ops, stats):
 
 
 def judge_import(wsp, case, idx, unit, sid, su, target):
-    """target = [relpath of the exporting file, name in it | None for the module itself]"""
+    """target = [relpath of the exporting file, name in it | None for the module itself, kind], or a
+    list of such targets when two branches import the same name from different modules"""
+    if target and isinstance(target[0], list):
+        res = [judge_import(wsp, case, idx, unit, sid, su, t) for t in target]
+        return any(ok for ok, _ in res), res[0][1]
     real = real_binding(wsp, sid)
     tunit = idx.get((case["id"], target[0]))
     if real is None or tunit is None:
@@ -1464,7 +1490,22 @@ def judge_import(wsp, case, idx, unit, sid, su, target):
 
 def proj_on_cycle(proj, rel):
     """is file `rel` on a cycle of the project's import statements (importer -> module named in the statement)?"""
-    edges = {r: {i.get("via") for i in f["imports"] if i.get("via")} for r, f in proj["files"].items()}
+    edges = {}
+    for r, f in proj["files"].items():
+        tgt = set()
+        for i in list(f["imports"]) + body_imports(f.get("body")):
+            v = i.get("via")
+            if not v:
+                continue
+            tgt.add(v)
+            # resolving the path also analyses every module that merely shares a name with a package on
+            # the path (`helpers.py` beside `helpers/`)
+            parts = v.split("/")
+            for n in range(1, len(parts)):
+                beside = "/".join(parts[:n]) + ".py"
+                if beside in proj["files"]:
+                    tgt.add(beside)
+        edges[r] = tgt
     seen, todo = set(), list(edges.get(rel, ()))
     while todo:
         x = todo.pop()
@@ -1477,6 +1518,8 @@ def proj_on_cycle(proj, rel):
 
 
 def classify_import(target, real, tags=None, name=None, case=None, rel=None):
+    if target and isinstance(target[0], list):
+        target = target[0]
     # I4: the imported name denotes a package (directory) and a module file of the same name lies in the
     # same directory: Python takes the package, lian matches both graph nodes and the first one wins
     # (or, when the importer is that very module, gives up).
@@ -1605,6 +1648,8 @@ def proj_render(proj):
                 lines.append(f"{n} = 1")
             else:
                 lines += [f"class {n}:", "    fld = 1"]
+        if f.get("body"):
+            lines += py_render(f["body"])
         live = {l for i in f["imports"] for l in i["locals"]}
         uses = [u for u in f["uses"] if u in live]
         for u in uses:
@@ -1617,9 +1662,34 @@ def proj_render(proj):
     return files
 
 
+def body_imports(stmts):
+    """the `imp` statements of a body tree, any depth"""
+    res = []
+    for st in stmts or []:
+        if st["k"] == "imp":
+            res.append(st)
+        for key in ("body", "else", "handler", "final"):
+            if isinstance(st.get(key), list):
+                res += body_imports(st[key])
+    return res
+
+
 def proj_tags(proj):
-    return {rel: {l: t for i in f["imports"] for l, t in i["locals"].items()}
-            for rel, f in proj["files"].items() if f["imports"]}
+    """file -> local name -> tag [target, decl, kind]; a name bound by imports of DIFFERENT targets
+    (conditional re-import) gets the tag [[target, decl, kind], …] (any of them is right)"""
+    res = {}
+    for rel, f in proj["files"].items():
+        tags = {}
+        for i in list(f["imports"]) + body_imports(f.get("body")):
+            for l, t in i["locals"].items():
+                if l in tags and tags[l][:2] != t[:2]:
+                    prev = tags[l] if isinstance(tags[l][0], list) else [tags[l]]
+                    tags[l] = prev + [t]
+                elif l not in tags:
+                    tags[l] = t
+        if tags:
+            res[rel] = tags
+    return res
 
 
 def make_proj_case(cid, proj):
@@ -1804,34 +1874,231 @@ def gen_pkg_project(rng, cid):
     return make_proj_case(cid, proj)
 
 
+IMPORT_POSITIONS = ["top", "fn_first", "fn_after", "nested_fn", "class_body", "method",
+                    "m_if", "m_ifelse", "m_try", "m_tryf", "m_with", "m_for", "m_while",
+                    "f_if", "f_ifelse", "f_try", "f_tryf", "f_with", "f_for", "f_while"]
+IMPORT_FORMS = ["import", "import_as", "from", "from_as", "rel_mod", "rel_mod_as", "rel_from_as", "abs_from_as", "star"]
+
+
+def gen_pos_project(rng, cid, n_scen=9):
+    """Import statements in every statement position.  A package `r<cid>` with library modules m1…m5
+    (unique declaration names), a top-level module `t<cid>.py`, and two importing modules whose bodies
+    are made of scenarios: one (position, form) pair each, the import statement placed there, uses of
+    the imported name before / after it in the same scope, from an inner scope, and from a scope where
+    it is NOT visible.  Every target is imported under one local name only per file.  Python treats an
+    import as an assignment of the enclosing function / class / module scope: the oracle is symtable
+    for the scope and the generator tag for the target."""
+    root, top = "r" + cid, "t" + cid
+    libs = {f"{root}/m{i}.py": [f"f{i}", f"g{i}", f"v{i}", f"K{i}"] for i in range(1, 6)}
+    libs[f"{top}.py"] = ["f0", "g0", "v0", "K0"]
+    kinds = {"f": "def", "g": "def", "v": "var", "K": "class"}
+    files = {f"{root}/__init__.py": {"decls": [], "imports": [], "uses": []}}
+    for rel, names in libs.items():
+        files[rel] = {"decls": [[kinds[n[0]], n] for n in names], "imports": [], "uses": []}
+    counter = [0]
+
+    def fresh(pfx):
+        counter[0] += 1
+        return f"{pfx}{counter[0]}"
+
+    for mi in range(2):
+        free_decl = [(rel, n) for rel, names in libs.items() for n in names]
+        free_mod = list(libs)
+        rng.shuffle(free_decl)
+        rng.shuffle(free_mod)
+        body = []
+        positions = rng.sample(IMPORT_POSITIONS, min(n_scen, len(IMPORT_POSITIONS)))
+
+        def mod_name(rel):
+            return rel.rsplit("/", 1)[-1][:-3]
+
+        def take_decl(inside_pkg=None):
+            for i, (rel, n) in enumerate(free_decl):
+                if rel in free_mod or True:
+                    if inside_pkg is None or (rel.startswith(root + "/") == inside_pkg):
+                        return free_decl.pop(i)
+            return None
+
+        def take_mod(inside_pkg=None):
+            for i, rel in enumerate(free_mod):
+                if inside_pkg is None or (rel.startswith(root + "/") == inside_pkg):
+                    # a module imported as a whole must not also give single names (one edge per target is
+                    # fine, but keep things simple): remove nothing, modules and their decls are distinct nodes
+                    return free_mod.pop(i)
+            return None
+
+        def make_import(module_level):
+            """returns an `imp` statement (fresh target) or None"""
+            forms = [f for f in IMPORT_FORMS if f != "star" or module_level]
+            form = rng.choice(forms)
+            if form == "import":
+                rel = take_mod(inside_pkg=False)
+                if rel is None:
+                    return None
+                return {"k": "imp", "text": f"import {mod_name(rel)}", "locals": {mod_name(rel): [rel, None, "import"]}, "via": rel}
+            if form == "import_as":
+                rel = take_mod(inside_pkg=False)
+                if rel is None:
+                    return None
+                l = fresh("l")
+                return {"k": "imp", "text": f"import {mod_name(rel)} as {l}", "locals": {l: [rel, None, "import_as"]}, "via": rel}
+            if form == "from":
+                t = take_decl(inside_pkg=False)
+                if t is None:
+                    return None
+                return {"k": "imp", "text": f"from {mod_name(t[0])} import {t[1]}", "locals": {t[1]: [t[0], t[1], "from"]}, "via": t[0]}
+            if form == "from_as":
+                t = take_decl(inside_pkg=False)
+                if t is None:
+                    return None
+                l = fresh("l")
+                return {"k": "imp", "text": f"from {mod_name(t[0])} import {t[1]} as {l}", "locals": {l: [t[0], t[1], "from_as"]}, "via": t[0]}
+            if form in ("rel_mod", "rel_mod_as"):
+                rel = take_mod(inside_pkg=True)
+                if rel is None:
+                    return None
+                if form == "rel_mod":
+                    return {"k": "imp", "text": f"from . import {mod_name(rel)}", "locals": {mod_name(rel): [rel, None, "rel_mod"]}, "via": rel}
+                l = fresh("l")
+                return {"k": "imp", "text": f"from . import {mod_name(rel)} as {l}", "locals": {l: [rel, None, "rel_mod_as"]}, "via": rel}
+            if form == "rel_from_as":
+                t = take_decl(inside_pkg=True)
+                if t is None:
+                    return None
+                l = fresh("l")
+                return {"k": "imp", "text": f"from .{mod_name(t[0])} import {t[1]} as {l}", "locals": {l: [t[0], t[1], "rel_from_as"]}, "via": t[0]}
+            if form == "abs_from_as":
+                t = take_decl(inside_pkg=True)
+                if t is None:
+                    return None
+                l = fresh("l")
+                return {"k": "imp", "text": f"from {root}.{mod_name(t[0])} import {t[1]} as {l}", "locals": {l: [t[0], t[1], "abs_from_as"]}, "via": t[0]}
+            # star: takes a whole library of the package that nothing else in this file touches
+            rel = next((r for r in free_mod if r.startswith(root + "/") and all((r, n) in free_decl for n in libs[r])), None)
+            if rel is None:
+                return None
+            free_mod.remove(rel)
+            for n in libs[rel]:
+                free_decl.remove((rel, n))
+            return {"k": "imp", "text": f"from .{mod_name(rel)} import *", "locals": {n: [rel, n, "star"] for n in libs[rel]}, "via": rel}
+
+        def use(names):
+            return {"k": "use", "names": list(names)}
+
+        def pair(module_level):
+            """two imports of ONE local name from different modules (for the two branches)"""
+            a, b = take_decl(inside_pkg=True), take_decl(inside_pkg=True)
+            if a is None or b is None or a[0] == b[0]:
+                return None
+            x = fresh("x")
+            mk = lambda t: {"k": "imp", "text": f"from .{mod_name(t[0])} import {t[1]} as {x}", "locals": {x: [t[0], t[1], "cond"]}, "via": t[0]}
+            return mk(a), mk(b), x
+
+        for pos in positions:
+            ml = pos == "top" or pos.startswith("m_")
+            fn = fresh("h")
+            if pos.endswith("ifelse"):
+                pr = pair(ml)
+                if pr is None:
+                    continue
+                i1, i2, x = pr
+                blk = [{"k": "if", "c": "cnd", "body": [i1, use([x])], "else": [i2]}, use([x]),
+                       {"k": "def", "name": fresh("h"), "params": [], "body": [use([x])]}]
+                names = [x]
+            else:
+                im = make_import(ml)
+                if im is None:
+                    continue
+                names = sorted(im["locals"])[:2]
+                inner = {"k": "def", "name": fresh("h"), "params": [], "body": [use(names)]}
+                kind = pos.split("_", 1)[1] if "_" in pos and pos[0] in "mf" and pos[1] == "_" else pos
+                if kind == "if":
+                    blk = [{"k": "if", "c": "cnd", "body": [im, use(names)], "else": []}, use(names), inner]
+                elif kind == "try":
+                    blk = [{"k": "try", "body": [im, use(names)], "handler": [use(["cnd"])]}, use(names), inner]
+                elif kind == "tryf":
+                    where = rng.choice(["body", "handler", "final"])
+                    t = {"k": "tryf", "body": [use(["cnd"])], "handler": [use(["cnd"])], "final": [use(["cnd"])]}
+                    t[where] = [im, use(names)]
+                    blk = [t, use(names), inner]
+                elif kind == "with":
+                    blk = [{"k": "with", "e": "cnd", "as": fresh("w"), "body": [im, use(names)]}, use(names), inner]
+                elif kind == "for":
+                    blk = [{"k": "for", "t": fresh("i"), "it": "cnd", "body": [im, use(names)]}, use(names), inner]
+                elif kind == "while":
+                    blk = [{"k": "while", "c": "cnd", "body": [im, use(names)]}, use(names), inner]
+                elif pos == "top":
+                    blk = [use(names), im, use(names), inner]
+                elif pos == "fn_first":
+                    blk = [im, use(names), inner]
+                elif pos == "fn_after":
+                    blk = [{"k": "assign", "t": fresh("q"), "e": {"k": "const", "v": 1}}, use(names), im, use(names), inner]
+                elif pos == "nested_fn":
+                    blk = [{"k": "def", "name": fresh("h"), "params": [], "body": [im, use(names), inner]}, use(names)]
+                elif pos == "class_body":
+                    blk = [{"k": "class", "name": fresh("C"), "body": [im, {"k": "def", "name": fresh("h"), "params": ["self"], "body": [use(names)]}]}]
+                else:   # method
+                    blk = [{"k": "class", "name": fresh("C"), "body": [{"k": "def", "name": fresh("h"), "params": ["self"], "body": [im, use(names), inner]}]}]
+            for st in body_imports(blk):
+                st["pos"] = pos
+            if ml or pos in ("class_body", "method"):
+                body += blk
+            else:
+                body.append({"k": "def", "name": fn, "params": [], "body": blk})
+            # a use from a scope where a function-level import is not visible
+            if not ml:
+                body.append(use(names))
+        files[f"{root}/main{mi}.py"] = {"decls": [], "imports": [], "uses": [], "body": body}
+    proj = {"root": root, "top": top, "files": files}
+    return make_proj_case(cid, proj)
+
+
 def proj_candidates(proj, keep_file):
     """single-step reductions: drop one import entry (anywhere), drop one non-__init__ file other than
     `keep_file` (with the imports that target it)."""
     res = []
+    all_imports = [(r2, im) for r2, g in proj["files"].items() for im in list(g["imports"]) + body_imports(g.get("body"))]
     for rel, f in proj["files"].items():
         for i in range(len(f["imports"])):
+            # an import whose local name another module re-imports (a chain) has to stay
+            if any(r2 != rel and im2.get("via") == rel and any(f" import {l} as " in im2["text"] + " as " for l in f["imports"][i]["locals"])
+                   for r2, im2 in all_imports):
+                continue
             p2 = json.loads(json.dumps(proj))
             del p2["files"][rel]["imports"][i]
             res.append(p2)
         for i in range(len(f["decls"])):
             p2 = json.loads(json.dumps(proj))
             del p2["files"][rel]["decls"][i]
-            if any(t[0] == rel and t[1] == f["decls"][i][1] for g in p2["files"].values() for im in g["imports"] for t in im["locals"].values()):
+            if any(t[0] == rel and t[1] == f["decls"][i][1] for g in p2["files"].values()
+                   for im in list(g["imports"]) + body_imports(g.get("body")) for t in im["locals"].values()):
                 continue
             res.append(p2)
+    for rel, f in proj["files"].items():
+        if f.get("body"):
+            for t in tree_candidates(f["body"]):
+                p2 = json.loads(json.dumps(proj))
+                p2["files"][rel]["body"] = t
+                res.append(p2)
     for rel in proj["files"]:
         if rel == keep_file or rel.endswith("__init__.py"):
             continue
+        # never remove a file an import still refers to (the import has to go first): an import of a
+        # missing file is unresolved for a different reason
+        refs = {x for r2, g in proj["files"].items() if r2 != rel
+                for im in list(g["imports"]) + body_imports(g.get("body"))
+                for x in [im.get("via")] + [t[0] for t in im["locals"].values()]}
+        if rel in refs or rel.rsplit("/", 1)[0] + "/" in refs:
+            continue
         p2 = json.loads(json.dumps(proj))
         del p2["files"][rel]
-        for g in p2["files"].values():
-            g["imports"] = [im for im in g["imports"] if not any(t[0] == rel for t in im["locals"].values())]
         res.append(p2)
     return res
 
 
 def proj_size(proj):
-    return sum(3 + len(f["imports"]) * 2 + len(f["decls"]) for f in proj["files"].values())
+    return sum(3 + len(f["imports"]) * 2 + len(f["decls"]) + len(json.dumps(f.get("body") or [])) // 40
+               for f in proj["files"].values())
 
 
 def shrink_proj(scratch, case, rel, signature, ops, kinds, rounds=10, width=60):
@@ -1851,6 +2118,8 @@ def shrink_proj(scratch, case, rel, signature, ops, kinds, rounds=10, width=60):
         for c in cands:
             new_root = "r" + c["id"]
             blob = json.dumps(c["proj"]).replace(cur["proj"]["root"], new_root)
+            if cur["proj"].get("top"):
+                blob = blob.replace(cur["proj"]["top"], "t" + c["id"])
             c2 = make_proj_case(c["id"], json.loads(blob))
             c.update(c2)
             c["rel"] = rel.replace(cur["proj"]["root"], new_root, 1)
@@ -2017,8 +2286,9 @@ def hoist_correspondence(rng, n, corpus_trees):
 
 # ====================================================================== batches
 
-def gen_cases(rng, n_py, n_js, depth, prefix, n_imp=0, n_pkg=0):
+def gen_cases(rng, n_py, n_js, depth, prefix, n_imp=0, n_pkg=0, n_pos=0):
     cases = [gen_import_case(random.Random(rng.getrandbits(64)), f"{prefix}imp{i:03d}") for i in range(n_imp)]
+    cases += [gen_pos_project(random.Random(rng.getrandbits(64)), f"{prefix}pos{i:03d}") for i in range(n_pos)]
     cases += [gen_pkg_project(random.Random(rng.getrandbits(64)), f"{prefix}pkg{i:03d}") for i in range(n_pkg)]
     tries = 0
     while len([c for c in cases if c["lang"] == "python"]) < n_py and tries < n_py * 5:
@@ -2095,10 +2365,10 @@ def tree_candidates(tree):
     def rec(stmts, rebuild):
         for i, s in enumerate(stmts):
             res.append(rebuild(stmts[:i] + stmts[i + 1:]))
-            for key in ("body", "else", "handler"):
+            for key in ("body", "else", "handler", "final"):
                 sub = s.get(key)
                 if isinstance(sub, list):
-                    if s["k"] not in ("def", "class", "func"):
+                    if s["k"] not in ("def", "class", "func", "tryf"):
                         res.append(rebuild(stmts[:i] + sub + stmts[i + 1:]))
 
                     def rb(new, i=i, s=s, key=key, stmts=stmts):
@@ -2189,14 +2459,14 @@ def _run(ctx, proofs_ok, ops, kinds, scratch):
     tier = ctx.tier
     corpus = load_corpus()
     if tier == "quick":
-        plan = [(100, 100, 3, 25, 30)]
+        plan = [(100, 100, 3, 25, 30, 20)]
         n_hoist = 3000
     else:
-        plan = [(150, 150, 3, 40, 80)] * 4 + [(120, 120, 4, 40, 80)] * 4
+        plan = [(150, 150, 3, 40, 80, 50)] * 4 + [(120, 120, 4, 40, 80, 50)] * 4
         n_hoist = 20000
     batches = []
-    for i, (npy, njs, depth, nimp, npkg) in enumerate(plan):
-        cases = gen_cases(ctx.rng, npy, njs, depth, f"b{i}", n_imp=nimp, n_pkg=npkg)
+    for i, (npy, njs, depth, nimp, npkg, npos) in enumerate(plan):
+        cases = gen_cases(ctx.rng, npy, njs, depth, f"b{i}", n_imp=nimp, n_pkg=npkg, n_pos=npos)
         if i == 0:
             cases = corpus + cases
         batches.append(Batch(scratch, f"b{i}", cases, ops, kinds))
